@@ -4,6 +4,7 @@ import (
 	"fmt"
 	"unicode/utf8"
 	"math"
+	"sort"
 	"strconv"
 
 	"github.com/launchdarkly/go-sdk-common/v3/ldattr"
@@ -350,6 +351,7 @@ func (w *World) genClause(segOK bool) *J {
 	if r.P(0.6) && w.real.Err() == nil { // mostly an attribute that some individual context really has
 		ic := w.real.IndividualContextByIndex(r.Intn(w.real.IndividualContextCount()))
 		if names := ic.GetOptionalAttributeNames(nil); len(names) > 0 {
+			sort.Strings(names) // the library returns them in map order; every choice must come from the PRNG alone
 			attr = names[r.Intn(len(names))]
 			if r.P(0.6) {
 				kind = string(ic.Kind())
